@@ -280,7 +280,7 @@ class Fn:
         if is_(v, "atoms"):
             X = v[1]
             return {"positions": Seq(X, VEC), "elements": Seq(X, EL), "symbols": Seq(X, EL), "atom_types": Seq(X, None),
-                    "charges": Seq(X, NUM), "groups": Seq(X, NUM), "cell": ("cell",)}.get(e.attr)
+                    "charges": Seq(X, NUM), "groups": Seq(X, NUM), "extra_atom_fields": Seq(X, None), "cell": ("cell",)}.get(e.attr)
         if is_(v, "mat") and e.attr == "shape":
             return ("shape", v)
         return None
@@ -393,6 +393,14 @@ class Fn:
                 if isinstance(parts[0], ast.Slice) and ts[1] is not None:
                     return Seq(c[1], NUM)
                 return NUM
+            if is_(c, "seq") and len(parts) == 2 and not isinstance(parts[0], ast.Slice):
+                t0 = self.ev(parts[0])
+                if is_(t0, "idx") and c[1] not in (None, "?"):
+                    self.ob(e, "subscript", W.same(t0[1], c[1]), "%s used as row index of a per-item array over %s  :: %s" % (self.show(t0), W.find(c[1]), ast.unparse(e)))
+                elif is_(t0, "seq") and is_(t0[2], "idx") and c[1] not in (None, "?"):
+                    self.ob(e, "fancy-subscript", W.same(t0[2][1], c[1]), "%s used as row selector of a per-item array over %s  :: %s" % (self.show(t0[2]), W.find(c[1]), ast.unparse(e)))
+                    return Seq(t0[1], c[2])
+                return c[2]
             if is_(c, "seq") and len(parts) == 2 and isinstance(parts[0], ast.Slice):
                 k = self.ev(parts[1]) if not isinstance(parts[1], ast.Slice) else None
                 if is_(c[2], "tup") and is_(k, "int") and 0 <= k[1] < len(c[2][1]):
@@ -496,6 +504,9 @@ class Fn:
                     return None
                 if name in ("translate", "extend_types"):
                     return None
+                if name == "_extend_extra_fields":
+                    o = a0 if is_(a0, "atoms") else None
+                    return ("tup", [Seq(o[1], None) if o else None, None, None, None, None])
                 if name == "cell_is_orthorhombic":
                     return BOOL
         if name == "uc_neighbor_offsets":
@@ -590,6 +601,11 @@ class Fn:
             return BOOL if name.startswith("is") else v
         if name == "update" and isinstance(fn, ast.Attribute) and isinstance(fn.value, ast.Name):
             v = self.env.get(fn.value.id)
+            if is_(v, "map") and is_(a0, "map"):
+                if is_(v[1], "idx") and is_(a0[1], "idx"):
+                    self.ob(e, "map-update", W.same(v[1][1], a0[1][1]), "map keyed by %s updated with a map keyed by %s" % (self.show(v[1]), self.show(a0[1])))
+                self.env[fn.value.id] = ("map", v[1] or a0[1], W.unify(v[2], a0[2]) if (v[2] is not None and a0[2] is not None) else (v[2] or a0[2]))
+                return None
             if is_(v, "set") and is_(a0, "set"):
                 if is_(v[1], "idx") and is_(a0[1], "idx"):
                     self.ob(e, "set-op", W.same(v[1][1], a0[1][1]), "%s update %s" % (self.show(v[1]), self.show(a0[1])))
@@ -636,7 +652,9 @@ class Fn:
         for t in st.targets:
             if isinstance(t, ast.Subscript):
                 c = self.ev(t.value)
-                i = self.ev(t.slice) if not isinstance(t.slice, ast.Slice) else None
+                if not is_(c, "map"):
+                    self.ev(t)      # a store through an index is an index obligation too
+                i = self.ev(t.slice) if not isinstance(t.slice, (ast.Slice, ast.Tuple)) else None
                 if is_(c, "map") and isinstance(t.value, ast.Name):
                     self.env[t.value.id] = ("map", self.W.unify(c[1], i) if c[1] else i, self.W.unify(c[2], v) if c[2] else v)
                 continue
